@@ -5,7 +5,7 @@ from .. import families
 
 def run(tier):
     return famcheck.run(
-        "C02", tier, [("c02", families.c02(tier))],
+        "C02", tier, [("c02", families.c02(tier)), ("mixed", families.mixed(tier, 2000 if tier == "thorough" else 120, salt=2))],
         "depth 1: all 8x8 operand type pairs x 16 binary operators, 8 types x 3 unary operators, ?: over 8x8 arm types x 2 "
         "condition kinds (exhaustive); depth 2: all ordered pairs of 14 operators x type triples (seeded covering sample in quick, "
         "all 4^3 triples over {u8,s16,u32,s64} in thorough); depth 3-4 seeded-random trees. Result observed through a signed 64-bit "
